@@ -7,6 +7,7 @@ import Jence.Model.Perft
 import Jence.Model.Budget
 import Jence.Spec.Rules
 import Jence.Spec.Oracle
+import Jence.Lemmas.History
 open Jence
 
 def parseHex? (s : String) : Option UInt64 :=
@@ -153,6 +154,28 @@ def cmdPlay (rest : String) : List String :=
           | none => acc.push (playLine g rep ++ s!" | {m.hex} 0")
     (go (words (parts.getD 1 "")) g RepTable.new #[playLine g RepTable.new]).toList
 
+/-- `oracle wf <fen> ; <moves>`: the hypotheses of the history theorems (T2.1/T2.3/T4.1), decided on every position
+    of the game as the model plays it: consistency, "no capture aims at the king", and `MoveOk` of every generated move -/
+def cmdWf (rest : String) : List String :=
+  let parts := semis rest
+  let line (g : Game) : String :=
+    s!"wf {if decide (WfD g) then 1 else 0} nk {if decide (NoKingCapture g) then 1 else 0} notok {(movesNotOk g).length} key {if g.key == scratchKey g then 1 else 0}"
+  match parseFen (parts.headD "") with
+  | .none => ["!none"]
+  | .panic => ["!panic"]
+  | .ok g =>
+    let rec go (mvs : List String) (g : Game) (acc : Array String) : Array String :=
+      match mvs with
+      | [] => acc
+      | mv :: rest =>
+        match parseMove g mv with
+        | none => acc.push s!"!illegal {mv}"
+        | some m =>
+          match makeCore g m with
+          | some g' => go rest g' (acc.push (line g'))
+          | none => acc.push "!check"
+    (go (words (parts.getD 1 "")) g #[line g]).toList
+
 def cmdFen (rest : String) : List String :=
   match parseFen rest with
   | .none => ["!none"] | .panic => ["!panic"] | .ok g => [dumpGame g]
@@ -285,6 +308,7 @@ def handle (line : String) (tt : TT) : List String × TT :=
   | "oracle" =>
     (match words rest with
      | "attackall" :: s :: r => cmdAttackAll ((parseNat? s).getD 1).toUInt64 ((r.head?.bind parseNat?).getD 1) true
+     | "wf" :: _ => cmdWf ((rest.drop 2).trimAscii.toString)
      | _ => Spec.oracle rest, tt)
   | _ => (["!unknown"], tt)
 
